@@ -12,6 +12,8 @@ EXTENDS Lexer, Json, IOUtils
 
 Rec == ndJsonDeserialize(IOEnv.TRACE)
 
+CONSTANT PropertyOnly     \* TRUE: judge by C12 itself only (any tokenisation with true slices and positions is accepted)
+
 VARIABLE l
 Init == l = 1
 
@@ -37,7 +39,7 @@ AcceptedByModel(r) == ProjAll(LexAll(r.src)) = ProjAll(r.toks)
 
 Consume == /\ l <= Len(Rec)
            /\ AcceptedByProperty(Rec[l])
-           /\ AcceptedByModel(Rec[l])
+           /\ (PropertyOnly \/ AcceptedByModel(Rec[l]))
            /\ l' = l + 1
 Next == Consume
 Spec == Init /\ [][Next]_l
